@@ -205,6 +205,87 @@ func TestDnsAdversarial(t *testing.T) {
 			}
 		}
 	}
+	// (c2) RDATA of every record type the decoder might know (type codes 0..300, 32768, 65535), as the last record and
+	// followed by another one: every length 0..24 and a few longer ones, with byte patterns that hit the value ranges
+	// (all zero, all 0xff, nibbles >= 10, counting bytes, a compression pointer at every even offset)
+	{
+		types := []int{}
+		for t := 0; t <= 300; t++ {
+			types = append(types, t)
+		}
+		types = append(types, 32768, 32769, 65280, 65535)
+		pats := []func(i, n int) byte{
+			func(i, n int) byte { return 0 },
+			func(i, n int) byte { return 0xff },
+			func(i, n int) byte { return 0x1a + byte(i)*0x11 },
+			func(i, n int) byte { return byte(i + 1) },
+			func(i, n int) byte {
+				if i%2 == 0 {
+					return 0xc0
+				}
+				return 12
+			},
+			func(i, n int) byte { return byte(n - i) },
+		}
+		lens := []int{}
+		for l := 0; l <= 24; l++ {
+			lens = append(lens, l)
+		}
+		lens = append(lens, 31, 32, 33, 64, 255, 256)
+		for _, typ := range types {
+			for _, l := range lens {
+				for pi, pat := range pats {
+					rd := make([]byte, l)
+					for i := range rd {
+						rd[i] = pat(i, l)
+					}
+					for _, follow := range []bool{false, true} {
+						if follow && l > 24 {
+							continue
+						}
+						m := []byte{0, 0, 0x81, 0x80, 0, 1, 0, 1, 0, 0, 0, 0}
+						if follow {
+							m[7] = 2
+						}
+						m = append(m, wName("a.bc")...)
+						m = append(m, u16(typ)...)
+						m = append(m, u16(1)...)
+						m = append(m, wRR{Owner: "a.bc", Type: typ, TTL: 60, Data: rd}.bytes()...)
+						if follow {
+							m = append(m, rrA("a.bc", 60, "192.0.2.1").bytes()...)
+						}
+						key := fmt.Sprintf("t%d/l%d/p%d/%v", typ, l, pi, follow)
+						if dm := check("rdata", key, m); dm != nil && (typ*7+l+pi)%97 == 0 {
+							drive("rdata", key, m)
+						}
+					}
+				}
+			}
+		}
+	}
+	// (c3) a response cut at every offset of its question section and just after it, returned to a Resolver: DoH hands
+	// whatever DecodeMessage returns to the resolver, so "(nil, nil)" is as bad as a panic
+	{
+		q := wResponse(0, "a.bc", tA, 0, nil)
+		for k := 0; k <= len(q); k++ {
+			for _, qd := range []byte{1, 2} {
+				m := append([]byte{}, q[:k]...)
+				if len(m) > 5 {
+					m[5] = qd
+				}
+				key := fmt.Sprintf("cut%d/qd%d", k, qd)
+				dm, err, status := decodeWithWatchdog(m, 3*time.Second)
+				nEval++
+				switch {
+				case status != "":
+					report("question", key, status, m)
+				case dm == nil && err == nil:
+					report("question", key, "DecodeMessage returned neither a message nor an error", m)
+				}
+				drive("question", key, m)
+			}
+		}
+	}
 	// (d) 64 KiB worst cases for the polynomial bound
 	{
 		// a chain of 16000 pointers, each pointing to the previous one, ending in a label
